@@ -43,6 +43,23 @@ def generate(rng, tier, shard, nshards):
                    la=float(rng.uniform(-np.pi / 2, np.pi / 2)), lo=float(rng.uniform(-np.pi, np.pi)), A=rng.standard_normal((int(rng.integers(1, 6)), 3)) * gens.logu(rng, 1e-2, 1e6))
 
 
+def ref_ecef(lat, lon, h, a=6378137.0, b=6356752.3142):      # the library's documented default ellipsoid
+    """closed-form geodetic -> ECEF, written independently of the library (longdouble)"""
+    L = np.longdouble
+    la, lo, h, a, b = np.radians(L(lat)), np.radians(L(lon)), L(h), L(a), L(b)
+    e2 = (a * a - b * b) / (a * a)
+    N = a / np.sqrt(1 - e2 * np.sin(la) ** 2)
+    return np.array([(N + h) * np.cos(la) * np.cos(lo), (N + h) * np.cos(la) * np.sin(lo), (N * (1 - e2) + h) * np.sin(la)], dtype=L)
+
+
+def ref_enu(lat, lon, h, lat0, lon0, h0):
+    L = np.longdouble
+    d = ref_ecef(lat, lon, h) - ref_ecef(lat0, lon0, h0)
+    la, lo = np.radians(L(lat0)), np.radians(L(lon0))
+    Rm = np.array([[-np.sin(lo), np.cos(lo), 0], [-np.sin(la) * np.cos(lo), -np.sin(la) * np.sin(lo), np.cos(la)], [np.cos(la) * np.cos(lo), np.cos(la) * np.sin(lo), np.sin(la)]], dtype=L)
+    return np.asarray(Rm @ d, float)
+
+
 def check_geodetic(case, ctx):
     from ahrs.common import frames as f
     lat, lon, h = case.p["lat"], case.p["lon"], case.p["h"]
@@ -112,6 +129,18 @@ def check_local(case, ctx):
     out = call(lambda: f.geodetic2enu(lat0, lon0, h0, lat0, lon0, h0))
     if ctx.returned(out, route=r):
         ctx.le("geodetic2enu of the origin itself is zero", np.abs(np.asarray(out.value, float)).max(), 1e-8, route=r)
+    # neighbours of the origin at every scale (a survey mark centimetres away ... a city away): the local coordinates against an independent
+    # evaluation of the closed forms, and against the library's own two-step route
+    for k in range(6):
+        sc = 10.0 ** (-10.0 + 1.8 * k + 1.7 * ((abs(lon0) * 1e3) % 1.0))          # offsets from 1e-10 to ~1 degree
+        dla, dlo = sc * (1.0 if lat0 < 0 else -1.0) * (0.3 + (abs(h0) % 0.7)), sc * (1.0 if lon0 < 0 else -1.0) * (0.3 + (abs(lat0) % 0.7))
+        la1, lo1, h1 = float(np.clip(lat0 + dla, -90.0, 90.0)), lon0 + dlo, h0 + (0.0, 12.5, -3.0)[k % 3]
+        out = call(lambda: (np.asarray(f.geodetic2enu(la1, lo1, h1, lat0, lon0, h0), float), np.asarray(f.ecef2enu(*f.geodetic2ecef(la1, lo1, h1), lat0, lon0, h0), float)))
+        if ctx.returned(out, clause="no-exception[neighbour of the origin]", route=r):
+            want = ref_enu(la1, lo1, h1, lat0, lon0, h0)
+            ctx.le("geodetic2enu of a neighbour of the origin equals the closed-form local coordinates (m)", float(np.abs(out.value[0] - want).max()), 1e-7 + 1e-12 * float(np.linalg.norm(want)),
+                   {"origin": [lat0, lon0, h0], "point": [la1, lo1, h1], "got": out.value[0], "want": want}, route=r)
+            ctx.le("geodetic2enu = ecef2enu(geodetic2ecef(...)) for a neighbour of the origin (m)", float(np.abs(out.value[0] - out.value[1]).max()), 1e-7, {"point": [la1, lo1, h1]}, route=r)
     r = "enu<->aer"
     for deg in (True, False):
         out = call(lambda: f.enu2aer(*enu, deg=deg))
